@@ -379,6 +379,42 @@ let c03 op a =
       else "0"
   | _ -> "(unknown-op " ^ op ^ ")"
 
+
+(* ---------- C11 ---------- *)
+(* UTF-8 decoding of source text sent by the harness (always valid: it comes from Rust strings) *)
+let scalars_of_utf8 (bs : n list) : n list =
+  let b = Array.of_list (List.map int_of_n bs) in
+  let len = Array.length b in
+  let rec go i acc =
+    if i >= len then List.rev acc else
+    let c = b.(i) in
+    if c < 0x80 then go (i + 1) (n_of_int c :: acc)
+    else if c < 0xe0 then go (i + 2) (n_of_int (((c land 0x1f) lsl 6) lor (b.(i+1) land 0x3f)) :: acc)
+    else if c < 0xf0 then go (i + 3) (n_of_int (((c land 0x0f) lsl 12) lor ((b.(i+1) land 0x3f) lsl 6) lor (b.(i+2) land 0x3f)) :: acc)
+    else go (i + 4) (n_of_int (((c land 0x07) lsl 18) lor ((b.(i+1) land 0x3f) lsl 12) lor ((b.(i+2) land 0x3f) lsl 6) lor (b.(i+3) land 0x3f)) :: acc)
+  in go 0 []
+let flagged (s : string) : (n * bool) list =
+  List.map (fun p -> match p with L [c; l] -> (n_of_string (atom c), atom l = "1") | _ -> failwith "scalar") (items (parse_sx s))
+let c11 op a =
+  match op, a with
+  | "c11.print_text", [s] -> hex (utf8 (pp_text (flagged s)))
+  | "c11.print_label", [s] -> hex (utf8 (ident_string (flagged s)))
+  | ("c11.lex_text" | "c11.lex_blob"), [h] ->
+      (match lex_string (scalars_of_utf8 (unhex h)) with
+       | Ok (bs, []) -> if op = "c11.lex_blob" || utf8_valid bs then "(ok " ^ hex bs ^ ")" else "(err)"
+       | Ok (_, _) -> "(err)"
+       | OutOfFuel -> "(skip)" | _ -> "(err)")
+  | "c11.print_blob", [h] -> hex (pp_blob (unhex h))
+  | "c11.pp_num", [d] -> hex (pp_num_str (List.init (String.length d) (fun i -> n_of_int (Char.code d.[i]))))
+  | "c11.lex_num", [h] ->
+      let cs = unhex h in
+      let isd c = let c = int_of_n c in c >= 48 && c <= 57 in
+      (match cs with
+       | c :: r when isd c && List.for_all (fun x -> isd x || int_of_n x = 95) r ->
+           "(ok " ^ String.concat "" (List.map (fun x -> String.make 1 (Char.chr (int_of_n x))) (strip_underscores cs)) ^ ")"
+       | _ -> "(err)")
+  | _ -> "(unknown-op " ^ op ^ ")"
+
 let dispatch (op : string) (a : string list) : string =
   let base = if String.length op > 2 && String.sub op 0 2 = "m." then String.sub op 2 (String.length op - 2) else op in
   let prop = try String.sub base 0 (String.index base '.') with Not_found -> base in
@@ -387,6 +423,7 @@ let dispatch (op : string) (a : string list) : string =
   | "c03" | "c04" | "c10" -> c03 op a
   | "c05" -> c05 op a
   | "c09" -> c09 op a
+  | "c11" -> c11 op a
   | "c15" -> c15 op a
   | "c16" -> c16 op a
   | _ -> "(unknown-op " ^ op ^ ")"
